@@ -272,6 +272,10 @@ class FuncFacts:
                 k = self.canon.key(left)
                 isnone = isinstance(op, ast.Is) == truth
                 return {('none', k), ('F', k)} if isnone else {('notnone', k)}
+            if isinstance(op, (ast.In, ast.NotIn)):
+                k = f'{self.canon.key(left)} in {self.canon.key(right)}'
+                holds = isinstance(op, ast.In) == truth
+                return {('T', k), ('notnone', k)} if holds else {('F', k)}
             if isinstance(op, (ast.Eq, ast.NotEq, ast.Is, ast.IsNot)):
                 c = self.eng.prog.fold(self.func.module, right, self.func.owner_class)
                 lk = left
